@@ -1194,7 +1194,7 @@ def dispatch(ctx, world):
     # jvp_argnums: sum_outgrads(jvps_dict[argnum](g, ans, *args, **kwargs) for argnum, g in zip(argnums, gs))
     for path, kind in (("defjvp.jvp_argnums", "dict"), ("defjvp_argnum.jvp_argnums", "maker"), ("defvjp_argnum.vjp_argnums", "vmaker")):
         r, syms, m3, node3, sc3 = eval_function(world, CORE, path)
-        r = strip_seq(r)
+        r = unseq(expand(ev, r, KEEP)) if r is not None else None
         loc3 = loc_of(m3, node3)
         ok = False
         if kind in ("dict", "maker"):
